@@ -32,7 +32,8 @@ EXPLANATION = (
     "argmax iff descending, argmin otherwise; the sortedness check raises "
     "in the right polarity for both directions; the three parallel lists "
     "are deleted at the same index; the row is yielded before the iterator "
-    "advances. NOT decided: global order for concrete inputs (follows from "
+    "advances. Also: the selection may be written as max(heads, key=score, default=None). "
+    "NOT decided: global order for concrete inputs (follows from "
     "the heads-selection argument once these hold and inputs are sorted).")
 TECHNIQUE = ("finite truth table over comparison outcomes + def-use / CFG "
              "ownership checks (OWN) + sibling agreement of the two merges")
